@@ -26,6 +26,71 @@ def liftP {α} (x : P α) : IO α :=
   | .ok a => pure a
   | .error e => throw (IO.userError e)
 
+def flagsToJson (f : Flags) : Json :=
+  Json.mkObj [("up", f.up), ("uv", f.uv), ("be", f.be), ("bs", f.bs), ("at", f.att), ("ed", f.ed)]
+
+def optBytesToJson : Option Bytes → Json
+  | none => Json.null
+  | some b => bytesToJson b
+
+def authDataToJson (a : AuthData) : Json :=
+  Json.mkObj [("rp_id_hash", bytesToJson a.rpIdHash), ("flags", flagsToJson a.flags),
+    ("sign_count", natToJson a.signCount),
+    ("attested", match a.attested with
+      | none => Json.null
+      | some c => Json.mkObj [("aaguid", bytesToJson c.aaguid), ("credential_id", bytesToJson c.credentialId),
+          ("public_key", bytesToJson c.publicKey)]),
+    ("extensions", optBytesToJson a.extensions)]
+
+def clientDataToJson (c : ClientData) : Json :=
+  Json.mkObj [("type", jvalToJson c.type), ("challenge", bytesToJson c.challenge),
+    ("origin", jvalToJson c.origin),
+    ("cross_origin", match c.crossOrigin with | none => Json.null | some b => Json.bool b),
+    ("token_binding", match c.tokenBinding with
+      | none => Json.null
+      | some t => Json.mkObj [("status", jvalToJson t.status),
+          ("id", match t.id with | none => Json.null | some s => Json.str s)])]
+
+def cborToJson (v : Cbor) : Json := bytesToJson (Cbor.enc v)
+
+def coseKeyToJson : CoseKey → Json
+  | .okp kty alg crv x => Json.mkObj [("kind", "okp"), ("kty", cborToJson kty), ("alg", cborToJson alg),
+      ("crv", cborToJson crv), ("x", cborToJson x)]
+  | .ec2 kty alg crv x y => Json.mkObj [("kind", "ec2"), ("kty", cborToJson kty), ("alg", cborToJson alg),
+      ("crv", cborToJson crv), ("x", cborToJson x), ("y", cborToJson y)]
+  | .rsa kty alg n e => Json.mkObj [("kind", "rsa"), ("kty", cborToJson kty), ("alg", cborToJson alg),
+      ("n", cborToJson n), ("e", cborToJson e)]
+
+def originsOfJson (j : Json) : P Origins :=
+  match j with
+  | .str s => pure (.single s)
+  | .arr xs => do pure (.many (← xs.toList.mapM (·.getStr?)))
+  | _ => throw "bad origin"
+
+def authCredOfJson (j : Json) : P AuthCred := do
+  pure { id := ← strField j "id", rawId := ← bytesField j "raw_id", type := ← strField j "type",
+         clientDataJSON := ← bytesField j "cdj", authenticatorData := ← bytesField j "auth_data",
+         signature := ← bytesField j "sig", userHandle := ← optField bytesOfJson j "user_handle" }
+
+def authExpectOfJson (j : Json) : P AuthExpect := do
+  pure { challenge := ← bytesField j "challenge", rpId := ← strField j "rp_id",
+         origin := ← originsOfJson (← field j "origin"), publicKey := ← bytesField j "public_key",
+         currentSignCount := ← intField j "stored_count", requireUV := ← boolField j "require_uv" }
+
+def verifiedAuthToJson (r : VerifiedAuth) : Json :=
+  Json.mkObj [("credential_id", bytesToJson r.credentialId), ("new_sign_count", natToJson r.newSignCount),
+    ("credential_device_type", r.deviceType), ("credential_backed_up", r.backedUp),
+    ("user_verified", r.userVerified)]
+
+def dispToJson : Generated.Disp → Json
+  | .ecdsa h => Json.str s!"ecdsa:{h}"
+  | .pkcs1v15 h => Json.str s!"pkcs1v15:{h}"
+  | .pss m h s => Json.str s!"pss:{m}:{h}:{s}"
+  | .raw => Json.str "raw"
+  | .libExc c => Json.str s!"lib:{c}"
+  | .otherExc c => Json.str s!"nonlib:{c}"
+  | .other w => Json.str s!"other:{w}"
+
 partial def runOp (hin hout : IO.FS.Stream) (j : Json) : IO Json := do
   let op ← liftP (strField j "op")
   match op with
@@ -42,6 +107,40 @@ partial def runOp (hin hout : IO.FS.Stream) (j : Json) : IO Json := do
   | "b64_decode" => do
     let s ← liftP (strField j "s")
     pure (outcomeToJson bytesToJson (Base64.decodeStr s))
+  | "cbor_roundtrip" => do
+    let b ← liftP (bytesField j "b")
+    pure (outcomeToJson bytesToJson (do let v ← parseCbor b; pure (encodeCbor v)))
+  | "parse_auth_data" => do
+    let b ← liftP (bytesField j "b")
+    pure (outcomeToJson authDataToJson (parseAuthData b))
+  | "parse_backup_flags" => do
+    let f ← liftP (natField j "flags")
+    pure (outcomeToJson (fun (r : String × Bool) => Json.mkObj [("device_type", r.1), ("backed_up", r.2)])
+      (parseBackupFlags (parseFlags f.toUInt8)))
+  | "aaguid_to_string" => do
+    let b ← liftP (bytesField j "b")
+    pure (outcomeToJson Json.str (aaguidToString b))
+  | "parse_client_data" => do
+    let b ← liftP (bytesField j "b")
+    let r ← runMIO hin hout (parseClientData b)
+    pure (outcomeToJson clientDataToJson r)
+  | "decode_cose" => do
+    let b ← liftP (bytesField j "b")
+    pure (outcomeToJson coseKeyToJson (decodeCose b))
+  | "cose_to_pubkey" => do
+    let b ← liftP (bytesField j "b")
+    let r ← runMIO hin hout (do let k ← liftE (decodeCose b); loadCoseKey k)
+    pure (outcomeToJson pubKeyToJson r)
+  | "sig_dispatch" => do
+    let kind ← liftP (strField j "kind")
+    let alg ← liftP (intField j "alg")
+    let a : Cbor := if alg ≥ 0 then .uint alg.toNat else .nint (-1 - alg).toNat
+    pure (Json.mkObj [("k", "accept"), ("record", dispToJson (sigDispatch kind a))])
+  | "verify_auth" => do
+    let c ← liftP (do authCredOfJson (← field j "cred"))
+    let e ← liftP (do authExpectOfJson (← field j "expect"))
+    let r ← runMIO hin hout (verifyAuth c e)
+    pure (outcomeToJson verifiedAuthToJson r)
   | _ => pure (Json.mkObj [("k", "driver-error"), ("why", s!"unknown op {op}")])
 
 end Webauthn.Driver
